@@ -701,6 +701,8 @@ class MdConn(P.PipelineConnection):
                 support = sorted((c, r) for c in (0, 1) for r in (0, 1) if p[c][r] > 1e-9)
                 c, r = support[ch % len(support)]
                 link["outcomes"].append((c, r))
+                link.setdefault("probs", []).append(p[c][r])
+                link.setdefault("support", []).append(len(support))
             else:
                 # remote state preparation: the creator's half (a link-internal qubit) is rotated as asked
                 # and measured; the receiver's physical qubit keeps the collapsed state
@@ -763,8 +765,24 @@ def execute_md_both(sc):
     P.reset_globals()
     n = sc["n"]
     rots = basis_rotations()
-    rot_l = rots[sc["basis_l"]]
-    rot_r = rots[sc.get("basis_r", "Z")]
+    # how the APPLICATION states each basis: by name, by rotation tuple, by both (the name wins; the
+    # tuple is a decoy), or not at all (then it asks for the default rotations (0,0,0) = Z)
+    form_l, form_r = sc.get("form_l", "name"), sc.get("form_r", "name")
+    name_l = "Z" if form_l == "none" else sc["basis_l"]
+    name_r = "Z" if form_r == "none" else sc.get("basis_r", "Z")
+    rot_l = rots[name_l]
+    rot_r = rots[name_r]
+
+    def spec(form, name, side):
+        decoy = rots["MY"] if name != "MY" else rots["X"]
+        kw = {}
+        if form in ("name", "both"):
+            kw["basis_" + side] = EprMeasBasis[name]
+        if form == "rot":
+            kw["rotations_" + side] = rots[name]
+        if form == "both":
+            kw["rotations_" + side] = decoy
+        return kw
     n_local_recv = n + 1
     n_total = n_local_recv + n  # receiver's qubits, then the link-internal creator halves
     shared = {}
@@ -782,18 +800,22 @@ def execute_md_both(sc):
                         **_hardware("generic"))
         conns.append(conn_c)
         conn_c.configure("create", sc, link, 1)
-        bl = EprMeasBasis[sc["basis_l"]]
+        kw = spec(form_l, name_l, "local")
         if sc["kind"] == "M":
-            br = EprMeasBasis[sc.get("basis_r", "Z")]
+            kw.update(spec(form_r, name_r, "remote"))
             if sc.get("via_c") == "create":
-                res_c = sock_c.create(number=n, tp=EPRType.M, basis_local=bl, basis_remote=br)
+                res_c = sock_c.create(number=n, tp=EPRType.M, **kw)
             else:
-                res_c = sock_c.create_measure(number=n, basis_local=bl, basis_remote=br)
+                res_c = sock_c.create_measure(number=n, **kw)
         else:
             if sc.get("via_c") == "create":
-                res_c = sock_c.create(number=n, tp=EPRType.R, basis_local=bl)
+                if "rotations_local" in kw and "basis_local" not in kw:
+                    raise ValueError("create(tp=R) takes the basis by name only")
+                kw.pop("rotations_local", None)
+                res_c = sock_c.create(number=n, tp=EPRType.R, **kw)
             else:
-                res_c = sock_c.create_rsp(number=n, basis_local=bl)
+                res_c = sock_c.create_rsp(number=n, **kw)
+        obs["creator_call"] = {k: (v.name if hasattr(v, "name") else list(v)) for k, v in kw.items()}
         try:
             conn_c.flush()
         except Exception as e:  # noqa: BLE001
@@ -805,6 +827,8 @@ def execute_md_both(sc):
         obs["request_type"] = link.get("request_type")
         obs["creator_post_process"] = [bool(r.post_process) for r in res_c]
         obs["creator_raw"] = [c for c, _ in link["outcomes"]]
+        obs["link_probs"] = link.get("probs")
+        obs["link_support"] = link.get("support")
         outs = []
         for r in res_c:
             try:
@@ -903,3 +927,47 @@ def judge_md_both(sc, obs, tol=1e-9):
                             "receiver_state_fidelity": round(f, 6),
                             "wanted": "the state Phi+ leaves for the outcome the creator reports"})
     return bad
+
+
+def probe_rotations(entry, bl, br, rl, rr):
+    """Call the real `create_measure` / `create_rsp` / `create(tp=M)` / `create(tp=R)` (not executed) with
+    the bases given by name (or None) and rotation tuples; return the rotations the result objects carry
+    (= EntRequestParams.rotations_local/remote) and slots 14..19 of the serialized request array."""
+    import netqasm.sdk.build_epr as be
+    from netqasm.qlink_compat import EPRType
+    P.reset_globals()
+    sock = EPRSocket("bob")
+    conn = P.PipelineConnection("alice", executor=P.TraceExecutor(name="alice"), epr_sockets=[sock])
+    try:
+        B = be.EprMeasBasis
+        kw = dict(number=1)
+        if bl is not None:
+            kw["basis_local"] = B[bl]
+        if entry in ("create_measure", "create(tp=M)") and br is not None:
+            kw["basis_remote"] = B[br]
+        if entry != "create(tp=R)":
+            kw["rotations_local"] = tuple(rl)
+        if entry in ("create_measure", "create(tp=M)"):
+            kw["rotations_remote"] = tuple(rr)
+        if entry == "create_measure":
+            res = sock.create_measure(**kw)
+        elif entry == "create_rsp":
+            res = sock.create_rsp(**kw)
+        elif entry == "create(tp=M)":
+            res = sock.create(tp=EPRType.M, **kw)
+        else:
+            res = sock.create(tp=EPRType.R, **kw)
+        out_l = tuple(int(x) for x in res[0].measurement_basis_local)
+        out_r = tuple(int(x) for x in res[0].measurement_basis_remote)
+        arrs = [a for a in conn.builder._mem_mgr.get_arrays_to_return() if len(a) == be.SER_CREATE_LEN
+                and a._init_values is not None]
+        if len(arrs) != 1:
+            raise ValueError(f"{entry}: cannot find the serialized request array")
+        iv = arrs[0]._init_values
+        idx = [be.SER_CREATE_IDX_ROTATION_X_LOCAL1, be.SER_CREATE_IDX_ROTATION_Y_LOCAL,
+               be.SER_CREATE_IDX_ROTATION_X_LOCAL2, be.SER_CREATE_IDX_ROTATION_X_REMOTE1,
+               be.SER_CREATE_IDX_ROTATION_Y_REMOTE, be.SER_CREATE_IDX_ROTATION_X_REMOTE2]
+        ser = [0 if iv[k] is None else int(iv[k]) for k in idx]
+        return out_l, out_r, ser
+    finally:
+        _abandon(conn)
